@@ -51,25 +51,30 @@ int dl_write_range(zckDL *dl, const char *at, size_t length) {
     if(nondet_int()) dl->zck->error_state = 1;
     return r;
 }
-static char *alloc_exact(size_t n) {
+/* sizes this unit can ask for: 1..MPX_T (carry-over save, concatenation), sizeof(regex_t) and, in the gen variants,
+ * the two pattern strings (77..88 bytes with a 2-byte boundary); anything else is flagged */
+#ifdef MPX_GEN
+#define MPX_AMAX 96
+#else
+#define MPX_AMAX (MPX_T > 0 ? MPX_T : 1)
+#endif
+static char *alloc_exact(size_t n, int zero) {
     switch(n) {
-#define AX(k) case k: return malloc(k);
+#define AX(k) case k: if(k <= MPX_AMAX || k == sizeof(regex_t)) { char *q = malloc(k); if(zero && q != NULL && k > 0) memset(q, 0, k); return q; } break;
     AX(0) AX(1) AX(2) AX(3) AX(4) AX(5) AX(6) AX(7) AX(8) AX(9) AX(10) AX(11) AX(12) AX(13) AX(14) AX(15) AX(16)
     AX(17) AX(18) AX(19) AX(20) AX(21) AX(22) AX(23) AX(24) AX(25) AX(26) AX(27) AX(28) AX(29) AX(30) AX(31) AX(32)
-    AX(64) AX(78) AX(79) AX(80) AX(81) AX(82) AX(83) AX(84) AX(85) AX(86) AX(87) AX(88)
+    AX(64) AX(77) AX(78) AX(79) AX(80) AX(81) AX(82) AX(83) AX(84) AX(85) AX(86) AX(87) AX(88)
 #undef AX
-    default: __CPROVER_assert(0, "MPX.alloc_exact.size_in_the_units_range"); __CPROVER_assume(0); return NULL;
+    default: break;
     }
+    __CPROVER_assert(0, "MPX.alloc_exact.requested_size_in_the_units_range"); __CPROVER_assume(0); return NULL;
 }
 void *calloc(size_t a, size_t b) {          /* zmalloc: zero-filled block of a*b bytes */
-    size_t n = a * b;
-    char *q = alloc_exact(n);
-    if(q != NULL) for(size_t k = 0; k < 88; k++) if(k < n) q[k] = 0;
-    return q;
+    return alloc_exact(a * b, 1);
 }
 void *realloc(void *p, size_t n) {
-    if(p == NULL) return alloc_exact(n);
-    char *q = alloc_exact(n);
+    if(p == NULL) return alloc_exact(n, 0);
+    char *q = alloc_exact(n, 0);
     if(q != NULL) {
         size_t old = __CPROVER_OBJECT_SIZE(p);
         for(size_t k = 0; k < MPX_T; k++) if(k < old && k < n) q[k] = ((const char *)p)[k];
